@@ -42,6 +42,11 @@ pub struct MirrorCase {
     pub cap1: Option<usize>,
     #[serde(default)]
     pub cap2: Option<usize>,
+    /// after the operations the producer's store is wrapped into an `Adf` (statement i gets
+    /// result handle `tail[i]`) and the semantics run on it: grounded, complete, stable — every
+    /// node their restrictions create is streamed like any other
+    #[serde(default)]
+    pub semantics_tail: Option<Vec<usize>>,
 }
 
 pub struct Mirror {
@@ -60,6 +65,24 @@ fn apply(bdd: &mut Bdd, res: &[Term], op: &Op, nvars: usize) -> Term {
         Op::Xor(a, b) => bdd.xor(r(a), r(b)),
         Op::Restrict(a, v, val) => bdd.restrict(r(a), Var(*v % nvars), *val),
     }
+}
+
+/// Wrap the store into an ADF over `nvars` statements and run the semantics on it; returns the
+/// store back together with a rendering of the answers.
+fn semantics_tail(bdd: Bdd, res: &[Term], tail: &[usize], nvars: usize) -> (Bdd, String) {
+    use adf_bdd::adf::Adf;
+    use adf_bdd::datatypes::adf::VarContainer;
+    use std::sync::{Arc, RwLock};
+    let names: Vec<String> = (0..nvars).map(|i| format!("v{i}")).collect();
+    let mapping: std::collections::HashMap<String, usize> = names.iter().enumerate().map(|(i, n)| (n.clone(), i)).collect();
+    let vc = VarContainer::from_parser(Arc::new(RwLock::new(names)), Arc::new(RwLock::new(mapping)));
+    let ac: Vec<Term> = (0..nvars).map(|i| res[tail.get(i).copied().unwrap_or(0) % res.len()]).collect();
+    let mut adf = Adf::from((vc, bdd, ac));
+    let g = adf.grounded();
+    let c: Vec<Vec<Term>> = adf.complete().collect();
+    let st: Vec<Vec<Term>> = adf.stable().collect();
+    let out = format!("{g:?} {c:?} {st:?}");
+    (adf.bdd, out)
 }
 
 pub fn gen_ops(rng: &mut Rng, nvars: usize, n_ops: usize) -> Vec<Op> {
@@ -112,6 +135,7 @@ struct PollRec {
 
 #[derive(Default)]
 struct ProducerOut {
+    tail: String,
     results: Vec<Term>,
     lens: Vec<usize>,
     final_nodes: Vec<BddNode>,
@@ -178,6 +202,11 @@ impl Scenario for Mirror {
         };
         let cap1 = cap(rng);
         let cap2 = cap(rng);
+        let semantics_tail = if rng.chance(1, 3) {
+            Some((0..nvars).map(|_| rng.below(ops.len() as u64 + 2) as usize).collect())
+        } else {
+            None
+        };
         MirrorCase {
             nvars,
             ops,
@@ -187,6 +216,7 @@ impl Scenario for Mirror {
             drop_relay_after,
             cap1,
             cap2,
+            semantics_tail,
         }
     }
 
@@ -202,6 +232,13 @@ impl Scenario for Mirror {
         for op in &case.ops {
             let t = apply(&mut ref_bdd, &ref_res, op, nvars);
             ref_res.push(t);
+        }
+        let mut ref_tail = String::new();
+        if let Some(tail) = &case.semantics_tail {
+            let (b, out) = semantics_tail(ref_bdd, &ref_res, tail, nvars);
+            ref_bdd = b;
+            ref_tail = out;
+            stats.inc("runs_with_semantics_tail");
         }
 
         let mk = |cap: Option<usize>| match cap {
@@ -230,6 +267,7 @@ impl Scenario for Mirror {
             let prod_out = &prod_out;
             let prod_done = &prod_done;
             let ops = &case.ops;
+            let semantics_tail_spec = case.semantics_tail.as_ref();
             bodies.push(Box::new(move || {
                 struct Done<'a>(&'a AtomicBool);
                 impl Drop for Done<'_> {
@@ -251,8 +289,18 @@ impl Scenario for Mirror {
                     o.lens.push(bdd.nodes.len());
                     prev = bdd.nodes.clone();
                 }
+                let mut tail_out = String::new();
+                if let Some(tail) = semantics_tail_spec {
+                    let (b, out) = semantics_tail(bdd, &res, tail, nvars);
+                    bdd = b;
+                    tail_out = out;
+                    if bdd.nodes.len() < prev.len() || bdd.nodes[..prev.len()] != prev[..] {
+                        prod_out.lock().unwrap().append_only_broken = Some("during the semantics tail".into());
+                    }
+                }
                 let mut o = prod_out.lock().unwrap();
                 o.results = res;
+                o.tail = tail_out;
                 o.final_nodes = bdd.nodes.clone();
                 // bdd (and with it the only sender) is dropped here
             }));
@@ -452,7 +500,7 @@ impl Scenario for Mirror {
                 return mk(self.viol("producer", "table-not-append-only", m.clone()), stats);
             }
             // producer unaffected by streaming / peer drop: identical to the channel-less twin
-            if prod.results != ref_res || *final_nodes != ref_bdd.nodes {
+            if prod.results != ref_res || *final_nodes != ref_bdd.nodes || prod.tail != ref_tail {
                 return mk(
                     self.viol(
                         "producer",
@@ -546,6 +594,11 @@ impl Scenario for Mirror {
             let mut d = c.clone();
             d.cap1 = None;
             d.cap2 = None;
+            out.push(d);
+        }
+        if c.semantics_tail.is_some() {
+            let mut d = c.clone();
+            d.semantics_tail = None;
             out.push(d);
         }
         if c.drop_recv_after.is_some() {
